@@ -5,7 +5,8 @@
    defined cell -> the prescribed PDU on the wire, indication to the user, transport close/open, ARTIM
    effect and an allowed next state; undefined cell -> no effect on wire, user, connection, timer or
    state (whether it raised or not). *)
-From PND Require Import Lib.Base Spec.Ps38Table Model.FsmCell Proofs.FsmCellProofs.
+From PND Require Import Lib.Base Spec.Ps38Table Model.FsmCell Model.Fsm Corr.CorrFsm Proofs.FsmCellProofs
+  Proofs.FsmStaticProofs.
 
 Theorem C04_every_cell : forall cells : list cell, check_cells cells = true ->
   (forall s e rq, In s states -> In e events ->
@@ -17,3 +18,14 @@ Print Assumptions C04_every_cell.
 Theorem C04_table_size : defined_cells = 123%nat.
 Proof. exact table_has_123_defined_cells. Qed.
 Print Assumptions C04_table_size.
+
+(* the control model the C05 / C12 / C13 invariants are proved about is itself the PS3.8 machine: in EVERY
+   cell — 13 states x 19 events x both roles x every primitive kind that can be in the slot when the event
+   is dispatched x ARTIM running or not — the effects of Model.Fsm.dispatch conform to the table exactly as
+   the observed cells of the real StateMachine are required to (and per run the observed cells are compared
+   with the model's: Corr.CorrFsm.model_matches) *)
+Theorem C04_model_conforms : forall (s e : N) (rq : bool) (p : primkind) (tb : bool),
+  In s states -> In e events -> In p all_prims -> applicable e p = true ->
+  conforms (model_cell s e rq p tb) = true.
+Proof. exact model_conforms_everywhere. Qed.
+Print Assumptions C04_model_conforms.
